@@ -155,6 +155,9 @@ impl<T: Elem> Iterator for Plain<'_, T> {
             3 => (rem, None),
             4 => (0, Some(rem + 1 + self.end % 7)),
             5 => (rem / 2, Some(rem.saturating_mul(2).saturating_add(3))),
+            // lawful but useless upper bounds (`take_while` over an open-ended range reports such hints)
+            6 => (0, Some(usize::MAX)),
+            7 => (rem, Some(usize::MAX - 1)),
             _ => (0, None),
         }
     }
@@ -426,7 +429,7 @@ fn run_history<T: Elem>(sc: &Sc, obs: &mut Obs) -> Vec<Violation> {
                     let mut pulled = 0usize;
                     let first = serial;
                     serial += *n;
-                    let r = if (first / 6) % 4 == 3 {
+                    let r = if (first / 8) % 4 == 3 {
                         // the trait's slice form of the same operation
                         obs.hit("probe.try_extend_from_slice");
                         pulled = *n;
@@ -437,7 +440,7 @@ fn run_history<T: Elem>(sc: &Sc, obs: &mut Obs) -> Vec<Violation> {
                             next: first,
                             end: first + *n,
                             pulled: &mut pulled,
-                            hint: (first % 6) as u8,
+                            hint: (first % 8) as u8,
                             _p: std::marker::PhantomData,
                         };
                         if it.hint >= 4 {
@@ -598,6 +601,30 @@ impl Check for C04 {
         if run < enum_cells() {
             // the enumerated short histories (most defects of a container show within three or four operations)
             return enum_cell(run);
+        }
+        if g.chance(1, 3000) {
+            // a big stack (tens of thousands of elements, a backing allocation of hundreds of kilobytes) whose maximum
+            // is then lowered far below its size: the contents must stay, only further insertions are refused
+            let k = g.log_uniform(20_000, 120_000);
+            let ops = vec![
+                Op::PushMany(k),
+                Op::Push,
+                Op::Push,
+                Op::SetMax(match g.below(3) {
+                    0 => 0,
+                    1 => g.urange(1, 1000),
+                    _ => k,
+                }),
+                Op::Queries,
+                Op::Top3,
+                Op::Push,
+                Op::TryExtend(2),
+                Op::Pop3,
+                Op::Discard(g.urange(0, 5)),
+                Op::Queries,
+                Op::CloneEq,
+            ];
+            return Sc { kind: Kind::Usize, cap0: None, ops, serial0: 1 };
         }
         let kind = if g.chance(1, 5) { Kind::Str } else { Kind::Usize };
         let cap0 = match g.below(10) {
